@@ -165,11 +165,13 @@ def run(tier="quick", seed=0, replay=None):
         return 1
     core.lean_stage(chk, "C12")
     from harness import cover
+    from harness import fingerprint
+    fingerprint.direct(chk, ['ixai/utils/tracker/multi_value.py'])
     _cv = cover.Cover(['ixai/utils/tracker/multi_value.py'])
     _cv.__enter__()
     quick = tier == "quick"
     reqs, impls = [], []
-    for i in range(150 if quick else 2000):
+    for i in range(chk.count(150, 2000)):
         keys = chk.rng.choice(KEYSETS)
         base_kind = chk.rng.choice(["welford", "es"])
         alpha = chk.rng.choice([Q(1), Q(1, 2), Q(1, 3)])
